@@ -175,21 +175,24 @@ package parquet
 //@   ensures[C10] err == nil ==> (rfault ==> old(rfault))
 
 //@ func PageHeader
+//@   split isRC(r)
 //@   requires srcOrCounter(r)
 //@   modifies heap("parquet.readCounter"), rfault
 //@   ensures res0 != nil && freshsince(res0)
 //@   ensures[C10] err == nil ==> (rfault ==> old(rfault))
 
 //@ func pageData
+//@   split isRC(r)
 //@   requires srcOrCounter(r) && ph != nil
 //@   modifies heap("parquet.readCounter"), rfault
 //@   ensures freshOrNil(res0)
 //@   ensures[C10] err == nil ==> (rfault ==> old(rfault))
 
 //@ func readLevels
-//@   requires dyn(in) == typeid("*bytes.Buffer") && payload(in) != 0
-//@   modifies obj(in)
+//@   requires width <= 4 && dyn(in) == typeid("*bytes.Buffer") && payload(in) != 0
+//@   modifies obj(in), rfault
 //@   ensures freshOrNil(res0)
+//@   ensures[C10] err == nil ==> (rfault ==> old(rfault))
 
 //@ func (*RequiredField).DoRead
 //@   requires external(r)
@@ -217,8 +220,8 @@ package parquet
 
 //@ func GetBools
 //@   requires dyn(r) == typeid("*bytes.Buffer") && payload(r) != 0
-//@   modifies obj(r)
-//@   ensures rfault == old(rfault)
+//@   modifies obj(r), rfault
+//@   ensures[C10] err == nil ==> (rfault ==> old(rfault))
 //@ loop GetBools#1
 //@   invariant freshOrNil(out) && freshOrNil(data)
 //@ loop GetBools#2
